@@ -27,6 +27,18 @@ def split_sessions(sessions, nfiles):
     return [c for c in chunks if c], index
 
 
+def _no_null(value):
+    """The Json module of TLC cannot read null: a None that changed code put into
+    an observation becomes the string "<null>" (no specification value equals it)."""
+    if value is None:
+        return "<null>"
+    if isinstance(value, dict):
+        return {k: _no_null(v) for k, v in value.items()}
+    if isinstance(value, (list, tuple)):
+        return [_no_null(v) for v in value]
+    return value
+
+
 def validate(module, chunks, constants, name="trace", jobs=16, heap=None, timeout=3600,
              extra_env=None):
     """Run one TLC per chunk (each single-worker) over spec/<module>.tla.
@@ -48,7 +60,7 @@ def validate(module, chunks, constants, name="trace", jobs=16, heap=None, timeou
         path = os.path.join(wdir, "trace.ndjson")
         with open(path, "w", encoding="utf-8") as handle:
             for event in chunks[idx]:
-                handle.write(json.dumps(event, separators=(",", ":")) + "\n")
+                handle.write(json.dumps(_no_null(event), separators=(",", ":")) + "\n")
         cfg = os.path.join(wdir, "trace.cfg")
         tlc.write_cfg(cfg, spec="Spec", constants=constants, postcondition="Consumed")
         env = {"TRACE_FILE": path}
